@@ -23,7 +23,7 @@ func (r *run) judgeSuccessDespiteFault(o outcome, cancels []cancelEv, panics []p
 	// Finish: any function that returned an error makes the call return one of them
 	if p.API == apiFinish {
 		if len(cancels) > 0 {
-			r.viol("C10/outcome/finish-error-lost", "Finish returned nil although a function returned an error", o)
+			r.viol(r.lostKey("C10/outcome/finish-error-lost", cancels), "Finish returned nil although a function returned an error", o)
 			return
 		}
 	}
@@ -48,7 +48,13 @@ func (r *run) judgeSuccessDespiteFault(o outcome, cancels []cancelEv, panics []p
 		// ErrReduceNoOutput (nil for MapReduceVoid) means "the reducer finished without output":
 		// the reducer function must have returned before the call did
 		if rr := r.redRet.Load(); rr == 0 || rr > o.Ret {
-			r.viol("C10/outcome/no-output-before-reducer-returned",
+			var before []cancelEv
+			for _, c := range cancels {
+				if c.Inv < o.Ret {
+					before = append(before, c)
+				}
+			}
+			r.viol(r.lostKey("C10/outcome/no-output-before-reducer-returned", before),
 				fmt.Sprintf("the call returned %s (stamp %d) although the reducer function had not returned yet (its return stamp: %d)", o.String(), o.Ret, rr), o)
 			return
 		}
@@ -66,8 +72,8 @@ func (r *run) judgeSuccessDespiteFault(o outcome, cancels []cancelEv, panics []p
 		// S1: a cancel call that had RETURNED before the commit point began makes success impossible
 		for _, c := range cancels {
 			if c.Ret != 0 && c.Ret < commit {
-				r.viol("C10/outcome/success-after-cancel-completed",
-					fmt.Sprintf("%s had returned (stamp %d) before the reducer committed (stamp %d), yet the call returned %s", c.Err, c.Ret, commit, o.String()), o)
+				r.viol(r.lostKey("C10/outcome/success-after-cancel-completed", []cancelEv{c}),
+					fmt.Sprintf("cancel(%s) had returned (stamp %d) before the reducer committed (stamp %d), yet the call returned %s", c.Err, c.Ret, commit, o.String()), o)
 				return
 			}
 		}
@@ -109,7 +115,23 @@ func (r *run) judgeSuccessDespiteFault(o outcome, cancels []cancelEv, panics []p
 			structural = p.API == apiVoid || p.Red == redLate || p.Red == redNever
 		}
 		if structural {
-			r.viol("C10/outcome/panic-lost", "the only fault of the run was the user panic by "+pe.By+" and the reducer cannot commit before it is consumed, yet the call returned "+o.String(), o)
+			key := "C10/outcome/panic-lost"
+			if panicClassOf(pe.val) == "typed_nil_pointer" {
+				key += "/panic-value-is-a-typed-nil-pointer"
+			}
+			r.viol(key, "the only fault of the run was the user panic by "+pe.By+" and the reducer cannot commit before it is consumed, yet the call returned "+o.String(), o)
+		}
+	}
+	// S3b: ForEach / FinishVoid / Finish without any failing function, several user panics, nothing else: the
+	// call cannot return before every mapper is done (the collector closes after the last one), and each
+	// panic is handed over before its mapper counts as done - so one of them must have been re-raised
+	if len(panics) > 1 && len(cancels) == 0 && !ctxEndedInRun && !p.hasReducer() {
+		for _, pe := range panics {
+			if pe.Stamp < o.Ret {
+				r.viol("C10/outcome/panic-lost/several-user-panics", fmt.Sprintf("%d user functions panicked (the first by %s) before the call returned, nothing else happened, yet %s returned %s",
+					len(panics), pe.By, p.API, o.String()), o)
+				break
+			}
 		}
 	}
 }
